@@ -414,7 +414,8 @@ def structured_scenarios(rng, tier):
     # (f) suspend: idle just short of 3 ms broken by a glitch, then 3 ms; (e) reset from suspend at 2.5 us
     sc["fs_suspend_boundaries"] = [
         S(J, "T3MS", -r(2, 9)), S(K, (), 1), S(J, "T2MS", r(1, 50)), S(SE0, (), 2), S(J, "T3MS", 3), S(J, (), 20),
-        S(SE0, "T2P5US", -2), S(J, (), 5), S(SE0, "T2P5US", 2, fso=True), S(SE0, "T5US", 3, fso=True),
+        S(SE0, "T2P5US", -2), S(J, (), 5), S(SE0, "T2P5US", -1), S(SE1, (), 1), S(SE0, "T2P5US", -1), S(SE1, (), 2),
+        S(J, (), 3), S(SE0, "T2P5US", 2, fso=True), S(SE0, "T5US", 3, fso=True),
         S(J, (), 9, fso=True)]
     # (a)(d) handshake with only two pairs, then silence until the deadline; then a good one with long chirps
     sc["two_pairs_then_timeout"] = [
@@ -705,11 +706,16 @@ def check_C19(rep):
     add("scaled", "seq", SCALED, named + wit)
     add("scaled-dev", "dev", SCALED, named)
     # configuration coverage: platform.ignore_phy_vbus, the always-FS USBDevice, other constant sets
-    add("scaled-novbus", "seq-novbus", SCALED, named + metas("random", randoms[:10]))
-    add("scaled-devfs", "dev-fs", SCALED, named)
+    pick = (lambda names: [it for it in named if it[1]["name"] in names]) if quick else (lambda names: named)
+    add("scaled-novbus", "seq-novbus", SCALED,
+        pick(("vbus_and_disconnect", "fs_reset_boundaries", "hs_suspend_resume", "domain_reset"))
+        + metas("random", randoms[:8 if quick else 60]))
+    add("scaled-devfs", "dev-fs", SCALED,
+        pick(("fs_reset_boundaries", "fs_suspend_boundaries", "fs_suspend_resume", "restrictions",
+              "vbus_and_disconnect", "runtime_restriction_change", "domain_reset")))
     rot = SCALED_ROTATION if not quick else [SCALED_ROTATION[rep.seed % len(SCALED_ROTATION)]]
     for tag, cset in rot:
-        add("scaled-" + tag, "seq", cset, named + wit)
+        add("scaled-" + tag, "seq", cset, named + (wit if not quick else []))
     if not quick:
         for it in named:
             if it[1]["name"] in ("fs_reset_boundaries", "hs_suspend_reset_failed_fs_suspend_resume", "restrictions",
